@@ -128,14 +128,14 @@ Example C20_s_example : py_format (plain (Some Ts)) 2848129096 = Some [72; 233].
 Proof. vm_compute. reflexivity. Qed.
 
 (* --- the formatted integer is the value in its own shape --- *)
-Theorem C20_emit_uses_shape_value sp sigs env e : brace_fill sp = false -> vexpr_ok sigs env e ->
+Theorem C20_emit_uses_shape_value sp sigs env e : vexpr_ok sigs env e ->
   norm (vshape sigs e) (vraw sigs env e) = vdenote sigs env e /\
   emit_field sp (vshape sigs e) (vraw sigs env e) =
   match py_format sp (vdenote sigs env e) with
   | Some t => Ok t
   | None => Err (match f_type sp with Some Ts => 3 | _ => 2 end)
   end.
-Proof. intros Hb Hok. split; [apply norm_raw_denote; auto|apply emit_field_shape_value; auto]. Qed.
+Proof. intros Hok. split; [apply norm_raw_denote; auto|apply emit_field_shape_value; auto]. Qed.
 Print Assumptions C20_emit_uses_shape_value.
 
 (* signed values print as signed: an unsigned(8) signal holding 200, read as_signed(), prints -56 *)
@@ -166,20 +166,15 @@ Example C20_print_text_example :
   spec_text sigs env f = Some [97;61;45;48;48;53;54;32;48;120;51] /\ format_wf sigs env f.
 Proof.
   split; [vm_compute; reflexivity|].
-  cbn [format_wf]. repeat split; try (vm_compute; congruence); try (cbn; lia);
-    intros sp H; vm_compute in H; injection H as <-; reflexivity.
+  cbn [format_wf]. repeat split; try (vm_compute; congruence); cbn; lia.
 Qed.
 
-(* FINDING (C20-brace-fill): Format accepts a '{' or '}' fill, Python formats it, the simulator's re-assembled
-   format string "{:{<5}" is malformed and str.format raises ValueError at run time *)
-Theorem C20_emit_brace_fill_refuted :
-  exists s sh sp v t, parse_spec s sh = Some sp /\ in_range sh v /\ py_format sp v = Some t /\
-                      emit_field sp sh v = Err 4.
-Proof.
-  exists [123; 60; 53], (Sh 8 false), (Spec (Some 123) (Some ALeft) None false false 5 false None), 5, [53;123;123;123;123].
-  vm_compute. repeat split; try reflexivity; discriminate.
-Qed.
-Print Assumptions C20_emit_brace_fill_refuted.
+(* FINDING C20-brace-fill (the real code disagrees with this model = specification): Format accepts a '{' or '}'
+   fill, Python formats it (below), but the simulator re-assembles the format string "{:{<5}", which is malformed,
+   and str.format raises ValueError when the Print runs.  harness/props/c20.py known_finding recognises it. *)
+Example C20_brace_fill_is_accepted_and_formats :
+  exists sp, parse_spec [123; 60; 53] (Sh 8 false) = Some sp /\ emit_field sp (Sh 8 false) 5 = Ok [53;123;123;123;123].
+Proof. exists (Spec (Some 123) (Some ALeft) None false false 5 false None). split; vm_compute; reflexivity. Qed.
 
 (* --- construction-time validation --- *)
 Theorem C20_invalid_specs_rejected_at_build sigs p : prog_ok sigs p = true ->
